@@ -3,12 +3,72 @@ SPEC = {
     'harness': 'hC14',
     'coq_dir': 'C14',
     'claimed': False,
-    'theorems': ['C14_del_after_add_refuted'],
+    'theorems': [
+        'C14_del_after_add_obs_id_partial', 'C14_del_after_add_refuted', 'C14_queries_invariant',
+        'C14_del_after_add_queries_partial', 'C14_hyps_satisfiable', 'C14_del_total_without_mvcc',
+    ],
     'allowed_axioms': [],
-    'shard': 5,
-    'rule': 'tbd',
-    'trusted_base': [],
-    'assumptions': [],
-    'manifest': {'level_text': 'tbd', 'level_note': 'tbd', 'technique': 'tbd'},
+    'shard': 25,
+    'check_preamble': 'Open Scope Z_scope.\n',
+    'rule': 'node streams: one case = one fresh chain33 test node (memdb, every 7th run leveldb; plugins txindex, addrindex, '
+            'addrfeeindex, fee, stat on; exec-level mvcc cannot run on a node, see trusted_base) that gets 1-2 prefix blocks '
+            '(funding of 2-4 accounts, history) and then 1-3 generated blocks of 1-5 transactions (coins transfer / '
+            'transfer-to-exec / withdraw, none, manage Modify; repeated addresses; in the failing stream self-transfers, '
+            'over-balance transfers, withdrawals that the executor refuses; in the groups stream 2-member transaction groups) '
+            'through BlockChain.ProcessBlock; the blocks are removed again by BlockChain.Rollback (disBlock -> '
+            'BlockStore.DelTxs -> executor EventDelBlock). Observed: the complete dump of the local-index key ranges of the '
+            'blockchain DB (TX:, STX:, ETX:, TxAddrHash:, TxAddrDirHash:, TxFeeAddrDirHash:, AddrTxsCount:, TotalFeeKey:, '
+            '.-mvcc-., LODB*, FLAG:, Statistics:) at the base height, after every connect and after the removal, values '
+            'decoded by key family into tagged records; and before (twin node at the base height) / after the removal the '
+            'answers of GetAddrTxsCount, GetAddrReciver, GetTxsByAddr flag 0/1/2, GetTxsFeeByAddr for every account, the '
+            'genesis and the executor addresses, GetTxResultFromDb for every transaction and TotalFeeKey for every block '
+            'hash. The Coq side replays the model over the run (every dump must be equal to the model\'s map; every answer '
+            'equal to the model query on the dump) and evaluates the spec on the implementation\'s data alone (normalised '
+            'final dump = normalised base dump, answers before = answers after). mvcc stream: executor.AddMVCC / '
+            'executor.DelMVCC called directly on a KVDB for 1-4 versions (keys that are prefixes of one another, nil values), '
+            'returned KV lists applied with the AddTxs/DelTxs rule, versions removed last-first. kinds are prefixed '
+            'guarded/unguarded by the theorem\'s guard (every coins transaction with a local effect has receipt ExecOk); '
+            'two fixed witness runs (failed self-transfer, successful transfer) come first. non-trivial = the removed blocks '
+            'hold at least 2 transactions (mvcc: at least one state write); distinct = distinct Gallina case terms',
+    'trusted_base': [
+        'values are tagged records: the protobuf encoding is not modelled; the harness decodes each stored value by its key '
+        'family (Int64, TotalFee, TxResult, ReplyTxInfo, AddrTxFeeInfo, LocalDBSet) and checks re-encoding for the scalar ones; '
+        'TxResult is compared on height, index, tx hash, receipt type, block time; ReplyTxInfo on hash, height, index (assets '
+        'and action name are not modelled)',
+        'tx.Hash(), tx.From(), tx.GetRealToAddr(), the decoded coins action and amount, receipt types, block hash / parent '
+        'hash / state hash are inputs of the model (computed by the Go code, not re-derived)',
+        'address.FormatAddrKey is the identity (base58 addresses); quickIndex on, no eth transaction hash, dbversion != 0, '
+        'no proxy-exec transactions; int64 wrap-around of counters and totals is not modelled',
+        'the executor\'s LocalDB cache is modelled by its Get semantics (committed map with the cached Sets applied; a cached '
+        'nil and an empty stored value both read as absent / 0)',
+        'the executor-level mvcc plugin cannot run on a node above height 0 on this tree (hash->version entry of version 0 '
+        'is the empty encoding of Int64{0}, read back as deleted by the local transaction layer: enableMVCC panics at height '
+        '1), so its AddMVCC/DelMVCC pair is checked by direct calls on a KVDB, with the harness applying the returned KV '
+        'lists by the AddTxs/DelTxs rule; the composition theorem covers it for any configuration',
+        'manage Apply/Approve (table + rollback log) and other dapps\' local data are not modelled; stat plugin produces nothing',
+    ],
+    'assumptions': [
+        'the block\'s index entries are new (fresh transaction hashes and 8-byte short hashes, positions, block hash, '
+        'mvcc version): the boolean predicate `fresh`',
+        'counter keys of the local DB hold counters (`counters_wf`)',
+        'the partial theorem\'s guard `all_local_ok`: every coins transfer / transfer-to-exec / withdraw in the block has '
+        'receipt ExecOk (otherwise known finding 1)',
+        'the removal list is produced (exec_del = Some): always the case without mvcc (proved), with mvcc when DelMVCC '
+        'accepts (top version, matching hash)',
+    ],
+    'manifest': {
+        'level_text': 'partial: unbounded Coq theorem for every plugin configuration, every local DB and every fresh block '
+                      '(remove after connect restores the local DB up to explicit-zero counters and mvcc version key lists, '
+                      'which no modelled query can see; hence every query answer is restored) under the guard that no coins '
+                      'transaction with a local effect failed; refuted without the guard (known finding 1: failed coins '
+                      'transfers stay in the receiver total), reproduced on the node. The Go code agrees with the model on '
+                      'every dump of every generated run',
+        'level_note': 'KV level with tagged values (protobuf not modelled); tx/addr/hash fields are inputs; LocalDB cache by '
+                      'its Get semantics; exec-level mvcc driven directly because it cannot run on a node on this tree; '
+                      'manage Apply/Approve tables not modelled',
+        'technique': 'Coq proof (per-key case analysis over the concatenated plugin KV lists: index entries by "every add '
+                     'key is deleted and was absent", counters by a closed form for read-modify-write runs through the '
+                     'cached view) + in-kernel correspondence check against test nodes',
+    },
     'harness_timeout': {'quick': 400, 'thorough': 3600},
 }
